@@ -21,6 +21,18 @@ type scenario struct {
 	readTO   time.Duration
 	writeTO  time.Duration
 	strategy func(t stM, k int) []label
+	// slow-drain class: the peer reads `chunk` payload bytes every `pace`; on TCP every payload byte is `amp` wire bytes
+	pace  time.Duration
+	chunk int
+	amp   int
+}
+
+// what the slow-drain class measured about its own timing
+type timing struct {
+	drain    time.Duration // first Send .. last Read of the peer
+	maxGap   time.Duration // largest interval between consecutive Read returns of the peer (and first Send .. first Read)
+	watchdog time.Duration // latest 2 ms tick in this process during the scenario
+	reads    int
 }
 
 type phaseRec struct {
@@ -64,6 +76,13 @@ func staticStrategy(phases [][]label) func(stM, int) []label {
 }
 
 func runScenario(sc scenario) ([]phaseRec, string) {
+	recs, note, _ := runScenarioT(sc)
+	return recs, note
+}
+
+func runScenarioT(sc scenario) ([]phaseRec, string, timing) {
+	var tm timing
+	var tFirst time.Time
 	rt, wt := sc.readTO, sc.writeTO
 	if rt == 0 {
 		rt = farTimeout
@@ -72,6 +91,11 @@ func runScenario(sc scenario) ([]phaseRec, string) {
 		wt = farTimeout
 	}
 	w := newWorld(rt, wt)
+	w.pace, w.chunk, w.amp = sc.pace, sc.chunk, sc.amp
+	var dog *watchdog
+	if sc.pace > 0 {
+		dog = startWatchdog()
+	}
 	note := ""
 	t := stM{maxc: 0}
 	if sc.maxc >= 0 {
@@ -89,6 +113,9 @@ func runScenario(sc scenario) ([]phaseRec, string) {
 		issued := make([]label, len(ph))
 		copy(issued, ph)
 		diverged := false
+		if sc.pace > 0 && k == 1 {
+			tFirst = time.Now()
+		}
 		for i := range issued {
 			if err := w.issue(&issued[i], issued[i].natural); err != nil {
 				if err == errDiverged {
@@ -151,10 +178,34 @@ func runScenario(sc scenario) ([]phaseRec, string) {
 		recs = append(recs, rec)
 		break
 	}
+	if dog != nil {
+		tm.watchdog = dog.end()
+		w.mu.Lock()
+		sess := append([]*realSess{}, w.sess...)
+		w.mu.Unlock()
+		for _, r := range sess {
+			r.mu.Lock()
+			last := tFirst
+			for _, x := range r.readTimes {
+				if x.Before(tFirst) {
+					continue
+				}
+				if g := x.Sub(last); g > tm.maxGap {
+					tm.maxGap = g
+				}
+				last = x
+				tm.reads++
+			}
+			if last.Sub(tFirst) > tm.drain {
+				tm.drain = last.Sub(tFirst)
+			}
+			r.mu.Unlock()
+		}
+	}
 	if !w.shutdown() {
 		note += " [goroutines left over after shutdown]"
 	}
-	return recs, note
+	return recs, note, tm
 }
 
 func firstLines(s string, n int) string {
@@ -225,10 +276,13 @@ type jScenario struct {
 	RT    int64      `json:"rt"`
 	WT    int64      `json:"wt"`
 	Ph    [][]jLabel `json:"ph"`
+	Pace  int64      `json:"pace,omitempty"`
+	Chunk int        `json:"chunk,omitempty"`
+	Amp   int        `json:"amp,omitempty"`
 }
 
 func encodeReplay(sc scenario, phases [][]label) string {
-	j := jScenario{Class: sc.class, Maxc: sc.maxc, RT: int64(sc.readTO), WT: int64(sc.writeTO)}
+	j := jScenario{Class: sc.class, Maxc: sc.maxc, RT: int64(sc.readTO), WT: int64(sc.writeTO), Pace: int64(sc.pace), Chunk: sc.chunk, Amp: sc.amp}
 	for _, p := range phases {
 		var q []jLabel
 		for _, l := range p {
@@ -253,14 +307,42 @@ func decodeReplay(s string) (scenario, error) {
 		}
 		phases = append(phases, q)
 	}
-	return scenario{class: j.Class, maxc: j.Maxc, readTO: time.Duration(j.RT), writeTO: time.Duration(j.WT), strategy: staticStrategy(phases)}, nil
+	return scenario{class: j.Class, maxc: j.Maxc, readTO: time.Duration(j.RT), writeTO: time.Duration(j.WT), strategy: staticStrategy(phases),
+		pace: time.Duration(j.Pace), chunk: j.Chunk, amp: j.Amp}, nil
 }
 
 func main() {
 	vh.Main("c16", func(e *vh.Env) {
+		timingDropped, timingRetries := 0, 0
 		emit := func(sc scenario) {
-			recs, note := runScenario(sc)
-			e.Emit(caseOf(sc, recs, note))
+			if sc.pace == 0 {
+				recs, note := runScenario(sc)
+				e.Emit(caseOf(sc, recs, note))
+				return
+			}
+			// slow-drain: the case counts only when its own timing was what the scenario is about - the peer never away
+			// for as long as a third of the write timeout, this process never stalled that long.  Otherwise the machine
+			// was too busy at that moment: retry a few times, then drop the scenario (fewer cases, never a false alarm).
+			limit := sc.writeTO / 3
+			for attempt := 0; ; attempt++ {
+				before := pollStats.mismatches
+				recs, note, tm := runScenarioT(sc)
+				if tm.maxGap < limit && tm.watchdog < limit && tm.reads > 0 {
+					c := caseOf(sc, recs, note)
+					d := c.Desc.(map[string]interface{})
+					d["timing"] = map[string]interface{}{"drain_ms": tm.drain.Milliseconds(), "peer_reads": tm.reads,
+						"longest_interval_between_peer_reads_ms": tm.maxGap.Milliseconds(), "latest_watchdog_tick_ms": tm.watchdog.Milliseconds(),
+						"pace_ms": sc.pace.Milliseconds(), "bound_ms": limit.Milliseconds()}
+					e.Emit(c)
+					return
+				}
+				pollStats.mismatches = before // whatever happened in a run without established timing does not count
+				if attempt >= 3 {
+					timingDropped++
+					return
+				}
+				timingRetries++
+			}
 		}
 		if e.Replay != "" {
 			sc, err := decodeReplay(e.Replay)
@@ -275,6 +357,9 @@ func main() {
 		reps := 1
 		if e.Search && e.Focus != "" && e.Focus != "walk" && e.Focus != "multi" && !strings.HasPrefix(e.Focus, "accept/") {
 			reps = 12 // the violation search repeats the diverging class: racing bursts need several attempts
+			if strings.HasPrefix(e.Focus, "slow-drain") {
+				reps = 2 // deterministic and slow
+			}
 		}
 	gen:
 		for rep := 0; rep < reps; rep++ {
@@ -287,6 +372,8 @@ func main() {
 			}
 		}
 		e.Meta["scenarios_where_model_and_implementation_differ"] = pollStats.mismatches
+		e.Meta["slow_drain_timing_not_established"] = timingDropped
+		e.Meta["slow_drain_retries"] = timingRetries
 		e.Meta["phases"] = pollStats.phases
 		e.Meta["polls"] = pollStats.polls
 		e.Meta["longest_wait_for_quiescence_ms"] = float64(pollStats.maxWait.Microseconds()) / 1000
